@@ -13,7 +13,7 @@ from openapi_python_client.parser.properties.schemas import get_reference_simple
 
 from .. import schema as oai
 from ..config import Config
-from ..utils import get_content_type
+from ..utils import get_content_type, remove_string_escapes
 from .errors import ErrorLevel, ParseError
 
 if sys.version_info >= (3, 11):
@@ -122,7 +122,7 @@ def body_from_data(
             )
         bodies.append(
             Body(
-                content_type=content_type,
+                content_type=remove_string_escapes(content_type),
                 prop=prop,
                 body_type=body_type,
             )
